@@ -100,8 +100,16 @@ def validate_quiet(ctx, events, tag):
     return res.tagged("REJ")
 
 
-def run_nego(ctx, mode, ekm=0, subset=None, extra_scn=None, shards=8):
-    data.dump_specs(ctx)
+def randomized_ids(ctx, n):
+    """n seeded randomized fingerprints per variant; the seeds depend on VERIF_SEED so that different runs see different ones"""
+    return ["%s@%d" % (v, ctx.seed * 1000 + k) for v in ("Randomized", "Randomized-ALPN", "Randomized-NoALPN") for k in range(n)]
+
+
+def run_nego(ctx, mode, ekm=0, subset=None, extra_scn=None, shards=8, extra_ids=None):
+    if extra_ids is None:
+        # besides the predefined parrots every grid also covers seeded randomized fingerprints
+        extra_ids = randomized_ids(ctx, 2 if ctx.quick else 16)
+    data.dump_specs(ctx, extra=extra_ids)
     dump_suites(ctx)
     scns, unadv, mcres = gen_scenarios(ctx, mode)
     if not scns:
